@@ -646,6 +646,11 @@ static void run_c04() {
         run_termset(*g_list, {{'r', "[^a]"}, {'c', "a"}}, bytes, false, 0);
         run_termset(*g_list, {{'c', "\xe9"}, {'s', "\xc3\xa9"}, {'c', "a"}}, bytes, false, 0);   // char and string terms made of bytes >= 0x80
         run_termset(*g_list, {{'s', "a\xff"}, {'c', "\x80"}, {'c', "\xff"}}, bytes, false, 0);
+        {   // regex terms that can match the empty string: an empty match is no match ("if no term matches a non-empty prefix the parse fails with Unexpected character")
+            std::vector<std::string> small; gen_inputs("1+x ", 4, small);
+            run_termset(*g_list, {{'r', "[0-9]*"}, {'c', "+"}}, small, false, 0);
+            run_termset(*g_list, {{'c', "+"}, {'r', "1?"}, {'r', "x{0}"}}, small, false, 0);
+            run_termset(*g_list, {{'r', "(1?)"}, {'c', "x"}}, small, false, 0); }
         {   // a string term with an embedded NUL byte: its length is that of the array, not of the C string
             std::vector<std::string> nul = bytes; for (const char* x : {"a", "ab", "b"}) { std::string t(x); nul.push_back(std::string("a\0b", 3) + t); nul.push_back(t + std::string("a\0b", 3)); nul.push_back(std::string("a\0", 2) + t); }
             run_termset(*g_list, {{'s', std::string("a\0b", 3)}, {'c', "a"}, {'c', "b"}}, nul, false, 0);
@@ -691,6 +696,9 @@ static void run_c10() {
         // a short term that is a prefix of a longer one: the lexer reads past the lexeme it finally delivers (also across a newline)
         {{'c', "x"}, {'s', "xqq"}, {'c', ";"}},
         {{'c', "q"}, {'s', "q\nq;"}, {'c', ";"}},
+        // a term that is a lone newline (it is a lexeme whenever newlines are not skipped), next to ordinary one-byte terms
+        {{'c', "x"}, {'c', "\n"}, {'c', ";"}},
+        {{'r', "x+"}, {'r', "\\x0a"}, {'c', ";"}},
     };
     std::vector<std::string> inputs; gen_inputs(std::string("xq; \t\r\n\x80\v\f"), cfg.maxlen, inputs);   // 0x80: a UTF-8 continuation byte is one column like every other byte
     long idx = 0;
